@@ -124,7 +124,7 @@ func run07(cfg xplore.Config, ch vrt.Chooser, trace bool) (xplore.Outcome, *vrt.
 				w.wdone[i] = true
 			})
 		}
-		vrt.Idle()
+		settle()
 		out.Obs = fmt.Sprintf("%v|%s", status.Code(st.status), renderLog(st.log))
 		out.Nontrivial = true
 		for i, ok := range w.wdone {
